@@ -122,14 +122,12 @@ def escLen (s : Str) : Option Nat :=
   | b :: cs =>
     if b != 92 then none
     else match cs with
-      | [] => some 1                                     -- `\` `$`
+      | [] => some 1                                     -- `\` `\Z`
       | d :: ds =>
         if isHex d then
           let k := hexRun 6 cs
           some (1 + k + wsLen (cs.drop k))               -- `\` hex{1,6} WS?
-        else if d == 10 then
-          (if ds.isEmpty then some 1 else none)          -- `\` `$` before the final newline
-        else if d == 13 || d == 12 then none
+        else if d == 10 || d == 13 || d == 12 then none   -- `\Z` holds only at the very end
         else some 2                                      -- `\` `[^\r\n\fa-f0-9]`
 
 /-- `CSS_ESCAPES` at the head of `s`: `(matched text, rest)`. -/
@@ -209,10 +207,7 @@ def cssUnescapeAux : Nat → Str → Str
         if isHex d then                                                   -- group 1
           let k := hexRun 6 cs
           fixCp (hexVal (cs.take k)) :: cssUnescapeAux (k + wsLen (cs.drop k)) cs
-        else if d == 10 then
-          (if ds.isEmpty then 0xFFFD :: cssUnescapeAux 0 cs               -- group 3, `$` before "\n"
-           else c :: cssUnescapeAux 0 cs)                                 -- no match here
-        else if d == 13 || d == 12 then c :: cssUnescapeAux 0 cs          -- no match here
+        else if d == 10 || d == 13 || d == 12 then c :: cssUnescapeAux 0 cs   -- no match here
         else d :: cssUnescapeAux 1 cs                                     -- group 2
 
 /-- `css_unescape(content)` (`string=False`), `COMMENTS` after a hex escape not modelled. -/
